@@ -151,6 +151,12 @@ def build_file_model(world, placement, sched, disk=None, circular=False,
     else:
         raise ValueError(mode)
     compact = sched.get('compact', 1)
+    if sched.get('prefinish'):
+        # finished in two steps: assemble and inverse links first, completion
+        # of what the workbook refers to afterwards
+        if log:
+            log.add('loader', 'finish', complete=False)
+        m.finish(complete=False)
     if log:
         log.add('loader', 'finish', compact=compact, circular=circular)
     if compact == 1:
